@@ -147,7 +147,12 @@ func (nc *nodeCase) runCrashPoints(maxPoints int) {
 		}
 		c.Count("crash-points")
 		where := fmt.Sprintf("crash after write %d of %d (during event %d: %s %s)", k, len(log), j, nc.events[j].kind, nc.events[j].name+nc.events[j].tgt)
-		evalPoint := func() (string, string) {
+		evalPoint := func() (sgOut string, detailOut string) {
+			defer func() {
+				if rec := recover(); rec != nil {
+					sgOut, detailOut = "C19:recovered-node-panics", where+": the node restarted on the surviving writes panics: "+firstWords(fmt.Sprint(rec), 14)
+				}
+			}()
 			n := &node{env: nc.env, db: dbFromLog(log[:k])}
 			err := n.reopen()
 			if err != nil {
